@@ -44,7 +44,7 @@ func genC11(r *simrt.Rand, tier string, idx int) *hx.Program {
 		case k < 95:
 			if floods < 1 {
 				floods++
-				p.Ops = append(p.Ops, hx.Op{K: "flood", S: c})
+				p.Ops = append(p.Ops, hx.Op{K: "flood", S: c, A: []int64{int64(r.Intn(47)), int64(r.Intn(2))}})
 			}
 		default:
 			p.Ops = append(p.Ops, hx.Op{K: "restart", S: "c0", A: []int64{int64(r.Intn(3)), int64(r.Intn(6))}})
@@ -73,7 +73,7 @@ func execC11(t *testing.T, prog *hx.Program, dec *simrt.Decider, verbose bool) *
 		skip   bool
 	}
 	var hist []*rec
-	restarts, floods, fetchErr, setErr := 0, 0, 0, 0
+	restarts, floods, fetchErr, setErr, coldJudged := 0, 0, 0, 0, 0
 	oc := runH3(t, prog, dec, verbose, 1, func(h *h3) {
 		h.cfgHook = func(n *simNode, c *Config) {
 			c.CursorsStream.Partitions = 1
@@ -122,15 +122,49 @@ func execC11(t *testing.T, prog *hx.Program, dec *simrt.Decider, verbose bool) *
 						simrt.Sleep(time.Duration(op.Arg(0, 1)) * time.Millisecond)
 					case "flood":
 						floods++
+						coldOK := map[int]bool{}
 						for k := 0; k < 520 && !h.stop; k++ {
 							if restarting || !n.up {
 								break
 							}
-							h.rpc(n, "flood", func(api *apiServer) {
+							var err error
+							alive := h.rpc(n, "flood", func(api *apiServer) {
 								ctx, cancel := ctxT(5 * time.Second)
 								defer cancel()
-								api.SetCursor(ctx, &client.SetCursorRequest{Stream: "s", Partition: 0, CursorId: fmt.Sprintf("cold%d", k), Offset: int64(k)})
+								_, err = api.SetCursor(ctx, &client.SetCursorRequest{Stream: "s", Partition: 0, CursorId: fmt.Sprintf("cold%d", k), Offset: int64(k)})
 							})
+							if alive && err == nil {
+								coldOK[k] = true
+							}
+							if k%40 == 39 && op.Arg(1, 0)%2 == 0 {
+								// a slower flood: simulated time passes, so cleaner ticks (compaction) and the
+								// auto-pause timer fall into it and race with its segment rolls
+								simrt.Sleep(700 * time.Millisecond)
+							}
+						}
+						// every cold cursor was stored exactly once: a sample of them (spread over the segments the
+						// flood filled, most of them evicted from the cache by now) is fetched back
+						for j := 0; j < 30 && !h.stop; j++ {
+							k := (j*17 + int(op.Arg(0, 0))) % 520
+							if !coldOK[k] || restarting || !n.up {
+								continue
+							}
+							var resp *client.FetchCursorResponse
+							var err error
+							alive := h.rpc(n, "fetchcold", func(api *apiServer) {
+								ctx, cancel := ctxT(5 * time.Second)
+								defer cancel()
+								resp, err = api.FetchCursor(ctx, &client.FetchCursorRequest{Stream: "s", Partition: 0, CursorId: fmt.Sprintf("cold%d", k)})
+							})
+							if !alive || err != nil || resp == nil {
+								fetchErr++
+								continue
+							}
+							h.oc.Checks++
+							coldJudged++
+							if resp.Offset != int64(k) {
+								h.fail("C11/cold", "C11/cold-cursor-lost", "cursor cold%d was stored once, with offset %d (SetCursor succeeded); FetchCursor returns %d", k, k, resp.Offset)
+							}
 						}
 					case "restart":
 						if restarting {
@@ -170,9 +204,10 @@ func execC11(t *testing.T, prog *hx.Program, dec *simrt.Decider, verbose bool) *
 						var err error
 						alive := true
 						if op.K == "set" {
+							// unique, not monotone: a cursor may be moved backwards (replay from an earlier offset)
 							nextVal++
-							r.in = c11in{Set: true, Val: nextVal}
-							v := nextVal
+							v := 100 + (nextVal*7919)%10007
+							r.in = c11in{Set: true, Val: v}
 							alive = h.rpc(n, "setcursor", func(api *apiServer) {
 								ctx, cancel := ctxT(5 * time.Second)
 								defer cancel()
@@ -290,6 +325,7 @@ func execC11(t *testing.T, prog *hx.Program, dec *simrt.Decider, verbose bool) *
 	oc.Counters["probe.set_errors_unknown_outcome"] = setErr
 	oc.Counters["fault.server_restart"] = restarts
 	oc.Counters["probe.cache_floods"] = floods
+	oc.Counters["probe.cold_cursors_judged"] = coldJudged
 	return oc
 }
 
